@@ -293,7 +293,9 @@ def check_guard_value(RV, info, guards, sinks, sym):
                     work.append((succ[1], copy.deepcopy(ww), depth))
                 a = succ[0] if succ else None
         if not found:
-            RV.fail('%s: %s' % (u.name, u.where(c, f)), 'no look-back read follows this start_out guard within 60 instructions', key='R-GUARD-VALUE-ASM|%s|%#x|nosink' % (sym, c.addr - f.entry))
+            # a comparison with start_out that protects no read (it only decides the status when nothing of the match fits into the output - fix 3d2f..: the parked-literal
+            # case); every look-back READ still needs a guard on all paths (R-GUARD-SINK-ASM) and is compared with the guard in front of it here
+            RV.ok(1, sample='%s: start_out comparison at %s decides a status only (no look-back read before the next guard or return)' % (sym, u.where(c, f)))
             continue
         nchecked += 1
         for i, form in found:
@@ -426,6 +428,112 @@ def check_spec_advance(rep):
                         sample='%s: cursor %s += %s is undone or completed on every path to the return' % (fn, cur, r))
     if n == 0:
         raise AnalysisBroken('R-SPEC-ADVANCE: no kernel analysed')
+
+
+def check_lookback_parked(rep, mod):
+    """When the output fills up in the middle of a multi-symbol lookup (literal, literal, length) the literals that did not fit are parked in write_overflow_lits / _len and the
+    decoder goes on to the length so that the match can be parked too.  The position the distance is measured from is then next_out PLUS the parked literals; a look-back test on
+    next_out alone calls a valid stream ISAL_INVALID_LOOKBACK where the answer is ISAL_OUT_OVERFLOW (one-shot decoding into a buffer that is too small)."""
+    import asmdb
+    from asmdb import REG64, is_mem, parse_mem
+    R = rep.rule('R-LOOKBACK-PARKED', 'the three block decoders: behind a store parking literals in state->write_overflow_len the comparison with start_out takes the parked count into account (C: every such comparison depends on a load of '
+                 'write_overflow_len; asm: at least one comparison reachable from the parking store computes the compared register from a load of [state + _write_overflow_len] within its block - the exact guard of '
+                 'the copy stays reachable in the flow graph although the output is full on that path)', floor=3, unit='decoders')
+    io = c19.field_offsets('struct inflate_state', ['write_overflow_len', 'next_out'])
+    wol = io['write_overflow_len']
+    # --- portable decoder
+    f = mod.funcs.get('decode_huffman_code_block_stateless_base')
+    if f is None:
+        raise AnalysisBroken('decode_huffman_code_block_stateless_base not found')
+    R.instance()
+    P = irrules.prov(mod, f)
+    parks = [i for i in f.all_insns() if i.op == 'store' and P.atoms(i.ops[1]) == {('param', 0, wol)} and not re.match(r'^0$', i.ops[0])]
+    sp = f.params[1][1]
+    cmps = [c for _, _, c in irrules.cond_branches(mod, f) if c is not None and c.op == 'icmp' and (sp in c.ops or any(('param', 1, 0) in P.atoms(o) for o in c.ops))]
+    if not parks or not cmps:
+        raise AnalysisBroken('decode_huffman_code_block_stateless_base: parking store / start_out comparison not found (%d / %d)' % (len(parks), len(cmps)))
+    reach = set()
+    for p_ in parks:
+        reach |= f.reachable_avoiding(p_.block, set())
+    bad = [c for c in cmps if c.block in reach and not any(('mem', ('param', 0, wol)) in P.deps(o) for o in c.ops)]
+    R.check(not bad, mod.where(f, bad[0]) if bad else mod.where(f, None), 'decode_huffman_code_block_stateless_base: this look-back test can be reached after literals were parked (output full inside a multi-symbol '
+            'lookup) but measures the distance from next_out alone: a distance that reaches into the parked literals is reported as ISAL_INVALID_LOOKBACK instead of ISAL_OUT_OVERFLOW', key='R-LOOKBACK-PARKED|base',
+            sample='base: %d start_out comparison(s) reachable from the parking store include write_overflow_len' % len([c for c in cmps if c.block in reach]))
+    # --- asm decoders
+    units = asmdb.units('default')
+    for un, u in sorted(units.items()):
+        for fn, fa in sorted(u.funcs.items()):
+            if not re.match(r'^decode_huffman_code_block_stateless_0\d$', fn):
+                continue
+            R.instance()
+            sreg = slot = None
+            for a in fa.addrs:
+                i = u.insns[a]
+                if i.mn == 'mov' and len(i.ops) == 2 and i.ops[0] in REG64 and is_mem(i.ops[1]) and sreg is None:
+                    pm = parse_mem(i.ops[1])
+                    if pm and pm['base'] in REG64 and not pm['index'] and pm['disp'] == io['next_out'] and pm['base'] not in ('rsp', 'rbp'):
+                        sreg = REG64[pm['base']][0]
+                if i.mn == 'mov' and len(i.ops) == 2 and i.ops[1] == 'rsi' and is_mem(i.ops[0]) and slot is None:
+                    pm = parse_mem(i.ops[0])
+                    if pm and pm['base'] == 'rsp':
+                        slot = pm['disp'] or 0
+            if sreg is None or slot is None:
+                raise AnalysisBroken('%s: state register / start_out slot not found' % fn)
+
+            def is_wol(op):
+                pm = parse_mem(op) if is_mem(op) else None
+                return bool(pm and pm['base'] in REG64 and REG64[pm['base']][0] == sreg and not pm['index'] and pm['disp'] == wol)
+            parks = [a for a in fa.addrs if u.insns[a].mn == 'mov' and len(u.insns[a].ops) == 2 and is_wol(u.insns[a].ops[0]) and u.insns[a].ops[1] in REG64]
+            guards = []
+            for a in fa.addrs:
+                i = u.insns[a]
+                if i.mn == 'cmp' and len(i.ops) == 2 and i.ops[0] in REG64 and is_mem(i.ops[1]):
+                    pm = parse_mem(i.ops[1])
+                    if pm and pm['base'] == 'rsp' and (pm['disp'] or 0) == slot and not pm['index']:
+                        guards.append(a)
+            if not parks or not guards:
+                raise AnalysisBroken('%s: parking store / start_out comparison not found (%d / %d)' % (fn, len(parks), len(guards)))
+            # first guards reachable from a parking store
+            first = set()
+            for p_ in parks:
+                seen, work = set(), list(u.succ(fa, p_))
+                while work:
+                    x = work.pop()
+                    if x in seen or x not in fa.aset:
+                        continue
+                    seen.add(x)
+                    if x in guards:
+                        first.add(x)
+                        continue
+                    if u.insns[x].mn == 'ret':
+                        continue
+                    work += u.succ(fa, x)
+            jt = {u.insns[a].target for a in fa.addrs if u.insns[a].target is not None}
+            bad = []
+            for gaddr in sorted(first):
+                regs = {REG64[u.insns[gaddr].ops[0]][0]}
+                idx = fa.addrs.index(gaddr)
+                ok = False
+                for b in reversed(fa.addrs[max(0, idx - 14):idx]):
+                    j = u.insns[b]
+                    if j.ops and j.ops[0] in REG64 and REG64[j.ops[0]][0] in regs and j.mn in ('mov', 'movsxd', 'movzx', 'add', 'sub', 'lea'):
+                        for o in j.ops[1:]:
+                            if is_wol(o):
+                                ok = True
+                            elif o in REG64:
+                                regs.add(REG64[o][0])
+                            elif is_mem(o):
+                                pm = parse_mem(o)
+                                regs |= {REG64[x][0] for x in (pm['base'], pm['index']) if x and x in REG64}
+                    if b in jt:
+                        break
+                if not ok:
+                    bad.append(gaddr)
+            # the flow graph does not know that the output is full on this path (the copy branch cannot be taken), so the exact guard of the copy is reachable too: required is that
+            # SOME comparison behind the parking store counts the parked literals
+            R.check(len(bad) < len(first), '%s: %s' % (un, u.where(u.insns[bad[0]], fa)) if bad else un, '%s: no comparison with start_out that is reachable after literals were parked in state->write_overflow_len '
+                    '(output full inside a multi-symbol lookup) includes the parked count: a valid stream decoded into a buffer that is too small is answered with ISAL_INVALID_LOOKBACK instead of '
+                    'ISAL_OUT_OVERFLOW' % fn, key='R-LOOKBACK-PARKED|%s' % fn, sample='%s: %d comparison(s) behind the parking store use [state + _write_overflow_len]' % (fn, len(first)))
 
 
 def check_asm(rep, V):
@@ -613,6 +721,7 @@ def main(tier):
     rep.attempt(check_overflow_needs_buffer, rep, mod)
     rep.attempt(check_asm, rep, V)
     rep.attempt(check_spec_advance, rep)
+    rep.attempt(check_lookback_parked, rep, mod)
     rep.attempt(check_array_fills, rep, mod)
     rep.attempt(check_codelen_end, rep, mod)
     rep.attempt(check_kraft_cover, rep)
